@@ -281,6 +281,9 @@ def decide_equal(hyps, lhs, rhs, timeout_s=10.0, rng=None, n_cross=3, assume_def
         if v == "valid":
             backends.add(be)
             continue
+        if v == "invalid" and any(u.op == "sum" for u in tm.subterms(tm.mk_add(l, r)).values()):
+            # bound sums are abstracted to unconstrained constants in the SMT encoding: its models are not counterexamples
+            return Verdict("undecided", be, "normal form inconclusive; solver model is over the abstraction of bound sums", seconds=time.time() - t0, cases=len(cases))
         if v == "invalid":
             return Verdict("refuted", be, "smt model (case %s)" % [tm.show(c, 80) for c in conds], witness=env,
                            seconds=time.time() - t0, cases=len(cases))
